@@ -410,6 +410,48 @@ func c18Run(c *Ctx) {
 			}
 		}
 	}
+	// Command.Aliases and Command.Name are public fields: a program that installs user-defined aliases (or renames
+	// a command) after the parser has already served a completion reaches the same context through the new word
+	if c.K%4 == 0 && specified && cur.Parent != nil && (class == "long-partial" || class == "bare-dashes" || class == "command-partial" || class == "after-plain-arg") && d.resolveLive(b) == "" {
+		chain := cur.Chain()
+		cm := chain[1+r.Intn(len(chain)-1)]
+		at, n := -1, 0
+		for i, w := range prefix {
+			if w == cm.Name {
+				at, n = i, n+1
+			}
+			for _, a := range cm.Aliases {
+				if w == a {
+					at, n = i, n+1
+				}
+			}
+		}
+		if n == 1 && cm.FC != nil {
+			nw := fmt.Sprintf("zzal%d", d.NewID())
+			how := "alias-added"
+			oldName := cm.FC.Name
+			if r.Bool() {
+				cm.FC.Aliases = append(cm.FC.Aliases, nw)
+			} else {
+				how = "command-renamed"
+				cm.FC.Name = nw
+			}
+			args2 := append(append([]string{}, prefix...), last)
+			args2[at] = nw
+			got2, _, pi2 := c18Complete(b, args2)
+			c.Count("completions", 1)
+			cm.FC.Name = oldName
+			if pi2 != nil {
+				c.Violate("late-"+how+":panic", "completion after the change panicked: %s", pi2.Value)
+				return
+			}
+			if g2 := itemsOf(got2); !eqStrs(g2, gi) {
+				c.Violate("late-"+how+":wrong-list", "%s (%q for command %q) after the first completion: words %q offered %q, but %q offered %q", how, nw, cm.Name, args2, g2, args, gi)
+				return
+			}
+			lateStage = how
+		}
+	}
 	// the parser's own parse of the same prefix reaches the same command context
 	b2 := d.Build()
 	var active []string
@@ -480,7 +522,9 @@ func c18Run(c *Ctx) {
 			c.Count("acceptance_parses", 1)
 		}
 	}
-	if lateStage != "" {
+	if lateStage == "alias-added" || lateStage == "command-renamed" {
+		class += "+late-" + lateStage
+	} else if lateStage != "" {
 		class += "+late-group-on-" + lateStage
 	}
 	c.Held(class, fmt.Sprintf("n=%d depth=%d prefix=%d help=%v", minInt(len(gi), 12), cur.Depth, minInt(len(prefix), 8), help))
